@@ -956,4 +956,524 @@ theorem lexIdentifier_fold {up : UParams} (hs : up.Sane) (c : Nat) (cs : List Na
               simp only [hq2, hf, Bool.false_eq_true, ↓reduceIte]
               exact hN
 
+
+/-- a step on the text and on the folded text -/
+def StepSim (inp : List Nat) : Except ErrRel StepOut → Except ErrRel StepOut → Prop
+  | .ok o, .ok o' =>
+    o.toks.map (·.tok) = o'.toks.map (·.tok) ∧ o.st = o'.st ∧ o.done = o'.done ∧ Aligned inp o.consumed o'.consumed
+  | .error e, .error e' => e.kind = e'.kind
+  | _, _ => False
+
+theorem ofSub_sim {inp : List Nat} (st : LexState) {a b : Sub} (h : SubSim inp a b) :
+    StepSim inp (ofSub st a) (ofSub st b) := by
+  cases a with
+  | error ea => cases b with
+    | error eb => simpa [SubSim, StepSim, ofSub] using h
+    | ok pb => obtain ⟨t, n⟩ := pb; simp [SubSim] at h
+  | ok pa => cases b with
+    | error eb => obtain ⟨t, n⟩ := pa; simp [SubSim] at h
+    | ok pb =>
+      obtain ⟨t1, n1⟩ := pa; obtain ⟨t2, n2⟩ := pb
+      simp only [SubSim] at h
+      simp [StepSim, ofSub, one, h.1, h.2]
+
+theorem spanLen_fold {p : Nat → Bool} (h10 : p 10 = false) (h13 : p 13 = false) (l : List Nat) :
+    spanLen p (foldEol l) = spanLen p l ∧ NoBreak (l.take (spanLen p l)) := by
+  induction l with
+  | nil => simp [spanLen, NoBreak]
+  | cons c cs ih =>
+    by_cases hc : c = 13
+    · subst hc
+      obtain ⟨r', hr⟩ := foldEol_break_head (d := 13) (by decide) cs
+      rw [hr]; simp [spanLen, h10, h13, NoBreak]
+    · rw [foldEol_cons_ne hc]
+      simp only [spanLen, ih.1]
+      refine ⟨trivial, ?_⟩
+      by_cases hp : p c = true
+      · simp only [hp, ↓reduceIte, List.take_succ_cons]
+        intro d hd
+        rcases List.mem_cons.1 hd with rfl | hd
+        · by_cases h : isLineBreak d = true
+          · rcases isLineBreak_cases h with rfl | rfl <;> simp_all
+          · simpa using h
+        · exact ih.2 d hd
+      · simp [hp, NoBreak]
+
+theorem headIsDigit_fold (l : List Nat) : headIsDigit (foldEol l) = headIsDigit l := by
+  cases l with
+  | nil => simp
+  | cons d t =>
+    by_cases hd : d = 13
+    · subst hd
+      obtain ⟨r', hr⟩ := foldEol_break_head (d := 13) (by decide) t
+      rw [hr]; simp [headIsDigit, isDigit]
+    · rw [foldEol_cons_ne hd]; rfl
+
+/-- a text that starts with a line break: one line end, then the rest -/
+theorem eol_split {d : Nat} (hd : isLineBreak d = true) (t : List Nat) :
+    ∃ e post, d :: t = e ++ post ∧ IsEol e ∧ NoFuse e post ∧ foldEol (d :: t) = 10 :: foldEol post := by
+  rcases isLineBreak_cases hd with rfl | rfl
+  · exact ⟨[10], t, rfl, .lf, (fun h => by cases h), foldEol_lf t⟩
+  · cases t with
+    | nil => exact ⟨[13], [], rfl, .cr, (fun _ => by simp), by simp [foldEol]⟩
+    | cons a t' =>
+      by_cases ha : a = 10
+      · subst ha; exact ⟨[13, 10], t', rfl, .crlf, (fun h => by cases h), foldEol_crlf t'⟩
+      · exact ⟨[13], a :: t', rfl, .cr, (fun _ => by simpa using ha), foldEol_cr (by simpa using ha)⟩
+
+
+theorem noBreak_single {c : Nat} (hc : isLineBreak c = false) (cs : List Nat) : NoBreak ((c :: cs).take 1) := by
+  intro d hd; simp at hd; subst hd; exact hc
+
+theorem StepSim.one {inp : List Nat} (tok : Tok) {n : Nat} (st : LexState) (h : NoBreak (inp.take n)) :
+    StepSim inp (.ok (one tok n st)) (.ok (one tok n st)) := by
+  simp [StepSim, PV.Lexer.one, aligned_of_noBreak h]
+
+theorem StepSim.skip {inp : List Nat} {n : Nat} (st : LexState) (h : NoBreak (inp.take n)) :
+    StepSim inp (.ok (skip n st)) (.ok (skip n st)) := by
+  simp [StepSim, PV.Lexer.skip, aligned_of_noBreak h]
+
+/-- `consume_character` on a character that is not a line break -/
+theorem consumeCharacter_fold {cfg : Cfg} (hf : cfg.fullLexer = false) (st : LexState) {c : Nat}
+    (hc : isLineBreak c = false) (cs : List Nat) :
+    StepSim (c :: cs) (consumeCharacter cfg st c cs) (consumeCharacter cfg st c (foldEol cs)) := by
+  have hc13 : c ≠ 13 := by intro h; subst h; simp [isLineBreak] at hc
+  have hfold : foldEol (c :: cs) = c :: foldEol cs := foldEol_cons_ne hc13 cs
+  unfold consumeCharacter
+  by_cases h1 : isDigit c = true
+  · simp only [h1, ↓reduceIte]
+    obtain ⟨n1, n2⟩ := lexNumber_fold (c :: cs)
+    rw [hfold] at n1
+    rw [n1]
+    cases hN : lexNumber (c :: cs) with
+    | error e => simp [StepSim, ofSub]
+    | ok p => obtain ⟨t, n⟩ := p; exact ofSub_sim st (SubSim.refl_noBreak (n2 t n hN))
+  simp only [h1, Bool.false_eq_true, ↓reduceIte]
+  by_cases h2 : c = 35
+  · subst h2
+    simp only [↓reduceIte, hf, Bool.false_eq_true]
+    obtain ⟨s1, s2⟩ := spanLen_fold (p := fun c => !isLineBreak c) (by decide) (by decide) (35 :: cs)
+    rw [hfold] at s1
+    unfold commentLen
+    rw [s1]
+    exact StepSim.skip st s2
+  simp only [h2, ↓reduceIte]
+  by_cases h3 : isQuote c = true
+  · simp only [h3, ↓reduceIte]
+    have := lexString_fold .string (c :: cs) (by simp [StringKind.prefixLen, NoBreak])
+      (by intro q r h; simp [StringKind.prefixLen] at h; rw [← h.1]; exact h3)
+    rw [hfold] at this
+    exact ofSub_sim st this
+  simp only [h3, Bool.false_eq_true, ↓reduceIte]
+  by_cases h4 : c = 33
+  · subst h4
+    simp only [↓reduceIte]
+    by_cases h61 : ∃ t, cs = 61 :: t
+    · obtain ⟨t, rfl⟩ := h61
+      rw [foldEol_cons_ne (by decide)]
+      exact StepSim.one _ st (by intro d hd; simp at hd; rcases hd with rfl | rfl <;> decide)
+    · split
+      · rename_i t; exact absurd ⟨t, rfl⟩ h61
+      · split
+        · rename_i t heq
+          rw [foldEol_eq_cons (by decide) (by decide)] at heq
+          obtain ⟨y, rfl, _⟩ := heq
+          exact absurd ⟨y, rfl⟩ h61
+        · simp [StepSim]
+  simp only [h4, ↓reduceIte]
+  rw [headIsDigit_fold]
+  by_cases h5 : (c = 46 && headIsDigit cs) = true
+  · simp only [h5, ↓reduceIte]
+    obtain ⟨n1, n2⟩ := lexNumber_fold (c :: cs)
+    rw [hfold] at n1
+    rw [n1]
+    cases hN : lexNumber (c :: cs) with
+    | error e => simp [StepSim, ofSub]
+    | ok p => obtain ⟨t, n⟩ := p; exact ofSub_sim st (SubSim.refl_noBreak (n2 t n hN))
+  simp only [h5, Bool.false_eq_true, ↓reduceIte]
+  have hop := lexOp_fold (c :: cs)
+  rw [hfold] at hop
+  rw [hop]
+  cases hO : lexOp (c :: cs) with
+  | some p =>
+    obtain ⟨o, n⟩ := p
+    exact StepSim.one _ st (lexOp_noBreak hO)
+  | none =>
+    simp only []
+    cases hob : openBracket c with
+    | some o => exact StepSim.one _ _ (noBreak_single hc cs)
+    | none =>
+      simp only []
+      cases hcb : closeBracket c with
+      | some o =>
+        simp only []
+        by_cases hn : st.nesting = 0
+        · simp [hn, StepSim]
+        · simp only [hn, ↓reduceIte]; exact StepSim.one _ _ (noBreak_single hc cs)
+      | none =>
+        simp only [hc, Bool.false_eq_true, ↓reduceIte]
+        by_cases h6 : isBlank c = true
+        · simp only [h6, ↓reduceIte]
+          obtain ⟨s1, s2⟩ := spanLen_fold (p := isBlank) (by decide) (by decide) (c :: cs)
+          rw [hfold] at s1
+          rw [s1]
+          exact StepSim.skip st s2
+        simp only [h6, Bool.false_eq_true, ↓reduceIte]
+        by_cases h7 : c = 92
+        · subst h7
+          simp only [↓reduceIte]
+          cases cs with
+          | nil => simp [StepSim]
+          | cons d t =>
+            by_cases hd : isLineBreak d = true
+            · obtain ⟨e, post, hsplit, he, hn, hfd⟩ := eol_split hd t
+              rw [hfd]
+              have n1 := nextChar_eol he hn
+              rw [← hsplit] at n1
+              have n2 : nextChar (10 :: foldEol post) = some (10, 1, foldEol post) := by simp [nextChar]
+              simp only [hd, ↓reduceIte, n1, n2, show isLineBreak 10 = true by decide]
+              by_cases hp : post = []
+              · subst hp; simp [StepSim]
+              · have hp' : post.isEmpty = false := by cases post <;> simp_all
+                have hp'' : (foldEol post).isEmpty = false := by
+                  cases hfp : foldEol post with
+                  | nil => exact absurd (foldEol_eq_nil.1 hfp) hp
+                  | cons _ _ => rfl
+                simp only [hp', hp'', Bool.false_eq_true, ↓reduceIte]
+                simp only [StepSim, PV.Lexer.skip, true_and]
+                unfold Aligned
+                rw [hsplit, foldEol_cons_ne (by decide), ← hsplit, hfd]
+                have : (92 :: (e ++ post)).drop (1 + e.length) = post := by rw [Nat.add_comm]; simp
+                rw [hsplit, this]
+                simp
+            · have hd13 : d ≠ 13 := by intro h; subst h; simp [isLineBreak] at hd
+              rw [foldEol_cons_ne hd13]
+              simp [hd, StepSim]
+        simp only [h7, ↓reduceIte]
+        by_cases h8 : cfg.up.emoji c = true
+        · simp only [h8, ↓reduceIte]; exact StepSim.one _ st (noBreak_single hc cs)
+        · simp [h8, StepSim]
+
+
+theorem isIdStart_break {up : UParams} (hup : UpOk up) {d : Nat} (hd : isLineBreak d = true) : isIdStart up d = false := by
+  have hx := hup.layoutChars d (Or.inr (Or.inl hd))
+  rcases isLineBreak_cases hd with rfl | rfl <;> simp [isIdStart, isAsciiLetter, hx]
+
+/-- `consume_normal` -/
+theorem consumeNormal_fold {cfg : Cfg} (hup : UpOk cfg.up) (hf : cfg.fullLexer = false) (st : LexState)
+    (inp : List Nat) : StepSim inp (consumeNormal cfg st inp) (consumeNormal cfg st (foldEol inp)) := by
+  cases inp with
+  | nil =>
+    simp only [foldEol_nil, consumeNormal]
+    cases consumeEof st with
+    | error e => simp [StepSim]
+    | ok o => simp [StepSim, Aligned]
+  | cons c cs =>
+    by_cases hc : isLineBreak c = true
+    · obtain ⟨e, post, hsplit, he, hn, hfd⟩ := eol_split hc cs
+      have hid := isIdStart_break hup hc
+      have hid10 : isIdStart cfg.up 10 = false := isIdStart_break hup (by decide)
+      rw [hfd]
+      simp only [consumeNormal, hid, hid10, Bool.false_eq_true, ↓reduceIte]
+      have h10 : consumeCharacter cfg st 10 (foldEol post) = _ :=
+        consumeCharacter_eol hf st (e := [10]) (post := foldEol post) (c := 10) (cs := foldEol post) .lf
+          (fun h => by cases h) rfl
+      rw [consumeCharacter_eol hf st he hn hsplit.symm, h10]
+      have hal : Aligned (c :: cs) e.length 1 := by
+        unfold Aligned
+        rw [hfd, hsplit]; simp
+      by_cases hnest : st.nesting = 0
+      · simp [hnest, StepSim, one, hal]
+      · simp [hnest, StepSim, skip, hal]
+    · have hc' : isLineBreak c = false := by simpa using hc
+      have hc13 : c ≠ 13 := by intro h; subst h; simp [isLineBreak] at hc'
+      rw [foldEol_cons_ne hc13]
+      simp only [consumeNormal]
+      by_cases hid : isIdStart cfg.up c = true
+      · simp only [hid, ↓reduceIte]
+        have := lexIdentifier_fold hup.sane c cs hc'
+        rw [foldEol_cons_ne hc13] at this
+        exact ofSub_sim st this
+      · simp only [hid, Bool.false_eq_true, ↓reduceIte]
+        exact consumeCharacter_fold hf st hc' cs
+
+
+/-! ### `eat_indentation` -/
+
+def EatSim (l : List Nat) : Except ErrRel EatOut → Except ErrRel EatOut → Prop
+  | .ok o, .ok o' => o.spaces = o'.spaces ∧ o.tabs = o'.tabs ∧ o.atBol = o'.atBol ∧ Aligned l o.pos o'.pos
+  | .error e, .error e' => e.kind = e'.kind
+  | _, _ => False
+
+theorem EatSim.shift {l r : List Nat} {k k' : Nat} (h1 : l.drop k = r) (h2 : (foldEol l).drop k' = foldEol r)
+    {a b} (h : EatSim r a b) : EatSim l (eatShift k a) (eatShift k' b) := by
+  cases a with
+  | error ea => cases b with
+    | error eb => simpa [EatSim, eatShift, ErrRel.shift] using h
+    | ok ob => simp [EatSim] at h
+  | ok oa => cases b with
+    | error eb => simp [EatSim] at h
+    | ok ob =>
+      simp only [EatSim, eatShift] at h ⊢
+      exact ⟨h.1, h.2.1, h.2.2.1, aligned_shift h1 h2 h.2.2.2⟩
+
+theorem eatIndent_at (l : List Nat) (p s t : Nat) :
+    eatIndent false l 0 p s t = eatShift p (eatIndent false l 0 0 s t) := by
+  have := eatIndent_shift p l 0 0 s t
+  simpa using this
+
+theorem eatIndent_fold : ∀ (n : Nat) (l : List Nat), l.length ≤ n → ∀ (s t : Nat),
+    EatSim l (eatIndent false l 0 0 s t) (eatIndent false (foldEol l) 0 0 s t) := by
+  intro n
+  induction n with
+  | zero =>
+    intro l hl s t
+    have : l = [] := List.eq_nil_of_length_eq_zero (by omega)
+    subst this
+    simp [eatIndent, EatSim, Aligned]
+  | succ n ih =>
+    intro l hl s t
+    cases l with
+    | nil => simp [eatIndent, EatSim, Aligned]
+    | cons c cs =>
+      have hcs : cs.length ≤ n := by simp at hl; omega
+      by_cases hbrk : isLineBreak c = true
+      · obtain ⟨e, post, hsplit, he, hn, hfd⟩ := eol_split hbrk cs
+        rw [hfd, hsplit]
+        have e1 := eatIndent_eol he hn 0 s t
+        have e2 := eatIndent_eol (e := [10]) (post := foldEol post) .lf (fun h => by cases h) 0 s t
+        simp only [Nat.zero_add, List.singleton_append, List.length_singleton] at e1 e2
+        rw [e1, e2, eatIndent_at post e.length, eatIndent_at (foldEol post) 1]
+        have hpl : post.length ≤ n := by
+          have := congrArg List.length hsplit
+          simp at this
+          have : 1 ≤ e.length := by cases he <;> simp
+          omega
+        exact EatSim.shift (l := e ++ post) (r := post) (k := e.length) (k' := 1) (by simp)
+          (by rw [← hsplit, hfd]; rfl) (ih post hpl 0 0)
+      · have hc' : isLineBreak c = false := by simpa using hbrk
+        have hc13 : c ≠ 13 := by intro h; subst h; simp [isLineBreak] at hc'
+        have hc10 : c ≠ 10 := by intro h; subst h; simp [isLineBreak] at hc'
+        have hfold : foldEol (c :: cs) = c :: foldEol cs := foldEol_cons_ne hc13 cs
+        rw [hfold]
+        have hshift1 : ∀ {a b}, EatSim cs a b → EatSim (c :: cs) (eatShift 1 a) (eatShift 1 b) :=
+          fun h => EatSim.shift rfl (by rw [hfold]; rfl) h
+        by_cases h32 : c = 32
+        · subst h32
+          simp only [eatIndent, Nat.zero_add]
+          rw [eatIndent_at, eatIndent_at (foldEol cs)]
+          exact hshift1 (ih cs hcs _ _)
+        by_cases h9 : c = 9
+        · subst h9
+          simp only [eatIndent, Nat.zero_add]
+          by_cases hs : s ≠ 0
+          · simp [hs, EatSim]
+          · simp only [hs, ↓reduceIte]
+            rw [eatIndent_at, eatIndent_at (foldEol cs)]
+            exact hshift1 (ih cs hcs _ _)
+        by_cases h12 : c = 12
+        · subst h12
+          simp only [eatIndent, Nat.zero_add]
+          rw [eatIndent_at, eatIndent_at (foldEol cs)]
+          exact hshift1 (ih cs hcs _ _)
+        by_cases h35 : c = 35
+        · subst h35
+          obtain ⟨s1, s2⟩ := spanLen_fold (p := fun c => !isLineBreak c) (by decide) (by decide) cs
+          simp only [eatIndent, addTok_false, Nat.zero_add, s1]
+          generalize hm : spanLen (fun c => !isLineBreak c) cs = m at s1 s2
+          have hm1 : m ≤ cs.length := by rw [← hm]; exact spanLen_le _ cs
+          have hm2 : m ≤ (foldEol cs).length := by rw [← s1]; exact spanLen_le _ _
+          rw [eatIndent_skip cs m 1 0 0 hm1, eatIndent_skip (foldEol cs) m 1 0 0 hm2]
+          have hal := aligned_of_noBreak s2
+          unfold Aligned at hal
+          rw [← hal, eatIndent_at (cs.drop m) (1 + m), eatIndent_at (foldEol (cs.drop m)) (1 + m)]
+          refine EatSim.shift (l := 35 :: cs) (r := cs.drop m) (k := 1 + m) (k' := 1 + m)
+            (by rw [Nat.add_comm]; simp) ?_ (ih _ (by simp; omega) 0 0)
+          rw [hfold, Nat.add_comm, ← List.drop_drop]
+          simp [hal]
+        · have : eatIndent false (c :: cs) 0 0 s t = .ok ⟨[], 0, s, t, false⟩ := by
+            rw [eatIndent.eq_def]; split <;> simp_all
+          rw [this]
+          have : eatIndent false (c :: foldEol cs) 0 0 s t = .ok ⟨[], 0, s, t, false⟩ := by
+            rw [eatIndent.eq_def]; split <;> simp_all
+          rw [this]
+          simp [EatSim, Aligned, hfold]
+
+
+def HiSim (inp : List Nat) :
+    Except ErrRel (List RelTok × Nat × LexState) → Except ErrRel (List RelTok × Nat × LexState) → Prop
+  | .ok (toks, p, st), .ok (toks', p', st') => toks.map (·.tok) = toks'.map (·.tok) ∧ st = st' ∧ Aligned inp p p'
+  | .error e, .error e' => e.kind = e'.kind
+  | _, _ => False
+
+theorem dedentLoop_zero (level : IndentLevel) (p : Nat) (stack : List IndentLevel) :
+    dedentLoop level p stack = errShift p (dedentLoop level 0 stack) := by
+  have := dedentLoop_shift p level 0 stack
+  simpa using this
+
+theorem handleIndentations_fold {cfg : Cfg} (hf : cfg.fullLexer = false) (st : LexState) (inp : List Nat) :
+    HiSim inp (handleIndentations cfg st inp) (handleIndentations cfg st (foldEol inp)) := by
+  have hE := eatIndent_fold inp.length inp (Nat.le_refl _) 0 0
+  unfold handleIndentations
+  rw [hf]
+  cases ha : eatIndent false inp 0 0 0 0 with
+  | error ea =>
+    cases hb : eatIndent false (foldEol inp) 0 0 0 0 with
+    | error eb => simpa [ha, hb, EatSim, HiSim] using hE
+    | ok ob => simp [ha, hb, EatSim] at hE
+  | ok oa =>
+    cases hb : eatIndent false (foldEol inp) 0 0 0 0 with
+    | error eb => simp [ha, hb, EatSim] at hE
+    | ok ob =>
+      simp only [ha, hb, EatSim] at hE
+      obtain ⟨hs, ht, hbol, hal⟩ := hE
+      have ta := eatIndent_toks _ _ _ _ _ _ ha
+      have tb := eatIndent_toks _ _ _ _ _ _ hb
+      have ba := eatIndent_bound _ _ _ _ _ _ ha (by simp)
+      have bb := eatIndent_bound _ _ _ _ _ _ hb (by simp)
+      simp only []
+      by_cases hn : st.nesting ≠ 0
+      · simp [hn, HiSim, ta, tb, hbol, hal]
+      · simp only [hn, ↓reduceIte]
+        cases hst : st.indents with
+        | nil => simp [HiSim, panicErr]
+        | cons cur rest =>
+          simp only []
+          rw [← hs, ← ht]
+          cases hcmp : compareStrict ⟨oa.tabs, oa.spaces⟩ cur with
+          | none => simp [HiSim]
+          | some ord =>
+            cases ord with
+            | eq => simp [HiSim, ta, tb, hbol, hal]
+            | gt =>
+              have bb' : oa.spaces + oa.tabs ≤ ob.pos := by rw [hs, ht]; exact bb
+              simp [HiSim, ta, tb, hbol, hal, ba, bb']
+            | lt =>
+              simp only []
+              rw [dedentLoop_zero _ oa.pos, dedentLoop_zero _ ob.pos]
+              cases dedentLoop ⟨oa.tabs, oa.spaces⟩ 0 (cur :: rest) with
+              | error e => simp [errShift, HiSim, ErrRel.shift]
+              | ok r => simp [errShift, HiSim, ta, tb, hbol, hal]
+
+
+/-- one step of the lexer on the text and on its folded form -/
+theorem step_fold {cfg : Cfg} (hup : UpOk cfg.up) (hf : cfg.fullLexer = false) (st : LexState) (inp : List Nat) :
+    StepSim inp (step cfg st inp) (step cfg st (foldEol inp)) := by
+  unfold step
+  by_cases hb : st.atBol = true
+  · simp only [hb, ↓reduceIte]
+    have hH := handleIndentations_fold hf st inp
+    cases ha : handleIndentations cfg st inp with
+    | error ea =>
+      cases hb' : handleIndentations cfg st (foldEol inp) with
+      | error eb => simpa [ha, hb', HiSim, StepSim] using hH
+      | ok rb => obtain ⟨t2, p2, s2⟩ := rb; simp [ha, hb', HiSim] at hH
+    | ok ra =>
+      obtain ⟨t1, p1, s1⟩ := ra
+      cases hb' : handleIndentations cfg st (foldEol inp) with
+      | error eb => simp [ha, hb', HiSim] at hH
+      | ok rb =>
+        obtain ⟨t2, p2, s2⟩ := rb
+        simp only [ha, hb', HiSim] at hH
+        obtain ⟨htk, hst, hal⟩ := hH
+        subst hst
+        simp only []
+        have hal' := hal
+        unfold Aligned at hal'
+        rw [← hal']
+        have hC := consumeNormal_fold hup hf s1 (inp.drop p1)
+        cases hca : consumeNormal cfg s1 (inp.drop p1) with
+        | error ea =>
+          cases hcb : consumeNormal cfg s1 (foldEol (inp.drop p1)) with
+          | error eb => simpa [hca, hcb, StepSim, ErrRel.shift] using hC
+          | ok ob => simp [hca, hcb, StepSim] at hC
+        | ok oa =>
+          cases hcb : consumeNormal cfg s1 (foldEol (inp.drop p1)) with
+          | error eb => simp [hca, hcb, StepSim] at hC
+          | ok ob =>
+            simp only [hca, hcb, StepSim] at hC
+            obtain ⟨c1, c2, c3, c4⟩ := hC
+            simp only [StepSim, List.map_append, List.map_map]
+            refine ⟨?_, c2, c3, ?_⟩
+            · have e1 : ((fun x : RelTok => x.tok) ∘ fun x => x.shift p1) = fun x : RelTok => x.tok := by
+                funext x; simp [RelTok.shift]
+              have e2 : ((fun x : RelTok => x.tok) ∘ fun x => x.shift p2) = fun x : RelTok => x.tok := by
+                funext x; simp [RelTok.shift]
+              rw [e1, e2, htk, c1]
+            · have := aligned_shift (l := inp) (r := inp.drop p1) (k := p1) (k' := p2) rfl hal'.symm c4
+              simpa [Nat.add_comm] using this
+  · simp only [hb, Bool.false_eq_true, ↓reduceIte]
+    exact consumeNormal_fold hup hf st inp
+
+/-- **CR / CRLF folding does not change the run**: the lexer's run on a text and on its universal-newline
+    normal form emit the same tokens and end the same way -/
+theorem eolInv {cfg : Cfg} (hup : UpOk cfg.up) (hf : cfg.fullLexer = false) : EolInv cfg := by
+  intro st x ts e
+  constructor
+  · intro h
+    induction h with
+    | @err st inp er h1 =>
+      have hS := step_fold hup hf st inp
+      rw [h1] at hS
+      cases hb : step cfg st (foldEol inp) with
+      | ok o => simp [hb, StepSim] at hS
+      | error eb =>
+        simp only [hb, StepSim] at hS
+        rw [hS]; exact RunsTo.err hb
+    | @done st inp o h1 hd =>
+      have hS := step_fold hup hf st inp
+      rw [h1] at hS
+      cases hb : step cfg st (foldEol inp) with
+      | error eb => simp [hb, StepSim] at hS
+      | ok o' =>
+        simp only [hb, StepSim] at hS
+        rw [hS.1]; exact RunsTo.done hb (by rw [← hS.2.2.1]; exact hd)
+    | @more st inp o ts' e' h1 hd _ ih =>
+      have hS := step_fold hup hf st inp
+      rw [h1] at hS
+      cases hb : step cfg st (foldEol inp) with
+      | error eb => simp [hb, StepSim] at hS
+      | ok o' =>
+        simp only [hb, StepSim] at hS
+        obtain ⟨s1, s2, s3, s4⟩ := hS
+        rw [s1]
+        refine RunsTo.more hb (by rw [← s3]; exact hd) ?_
+        unfold Aligned at s4
+        rw [← s4, ← s2]; exact ih
+  · intro h
+    generalize hy : foldEol x = y at h
+    induction h generalizing x with
+    | @err st2 inp er h1 =>
+      subst hy
+      have hS := step_fold hup hf st2 x
+      rw [h1] at hS
+      cases ha : step cfg st2 x with
+      | ok o => simp [ha, StepSim] at hS
+      | error ea =>
+        simp only [ha, StepSim] at hS
+        rw [← hS]; exact RunsTo.err ha
+    | @done st2 inp o h1 hd =>
+      subst hy
+      have hS := step_fold hup hf st2 x
+      rw [h1] at hS
+      cases ha : step cfg st2 x with
+      | error ea => simp [ha, StepSim] at hS
+      | ok o' =>
+        simp only [ha, StepSim] at hS
+        rw [← hS.1]; exact RunsTo.done ha (by rw [hS.2.2.1]; exact hd)
+    | @more st2 inp o ts' e' h1 hd _ ih =>
+      subst hy
+      have hS := step_fold hup hf st2 x
+      rw [h1] at hS
+      cases ha : step cfg st2 x with
+      | error ea => simp [ha, StepSim] at hS
+      | ok o' =>
+        simp only [ha, StepSim] at hS
+        obtain ⟨s1, s2, s3, s4⟩ := hS
+        rw [← s1]
+        refine RunsTo.more ha (by rw [s3]; exact hd) ?_
+        unfold Aligned at s4
+        rw [s2]
+        exact ih (x.drop o'.consumed) s4
+
 end PV.C08
